@@ -16,9 +16,14 @@ structure Valid (s : St) : Prop where
   /-- a node of which the driver holds a handle or a view has not been reclaimed -/
   present : ∀ i h, s.held[i]? = some h → h.pos → i ∈ ids s.heap
 
-theorem Valid.init : Valid { heap := [], held := [] } :=
-  ⟨List.nodup_nil, fun _ h => nomatch h, fun _ h => nomatch h, fun _ h => nomatch h,
-   fun i h hh => by simp at hh⟩
+theorem Valid.init : Valid { heap := [], held := [] } := by
+  refine ⟨List.nodup_nil, ?_, ?_, ?_, ?_⟩
+  · intro o ho; cases ho
+  · intro o ho; cases ho
+  · intro o ho; cases ho
+  · intro i h hh _
+    change ([] : List Held)[i]? = some h at hh
+    rw [List.getElem?_nil] at hh; cases hh
 
 theorem mem_updObj {H : Heap} {i : Nat} {f : Obj → Obj} {o' : Obj} :
     o' ∈ updObj H i f ↔ ∃ o ∈ H, (if o.id == i then f o else o) = o' := by
@@ -140,7 +145,7 @@ theorem Valid.find_some {s : St} (v : Valid s) {i : Nat} (h : s.canReach i = tru
   | none => exact absurd this (find_none.mp hf)
   | some o => exact ⟨o, rfl⟩
 
-theorem Valid.alloc {s : St} (v : Valid s) (e vw : Nat) (hp : e > 0 ∨ vw > 0) :
+theorem Valid.alloc {s : St} (v : Valid s) (e vw : Nat) :
     Valid { heap := s.heap ++ [{ id := s.held.length, edges := [], views := vw, ext := e,
                                  visits := 0, mark := false }],
             held := s.held ++ [{ handles := e, views := vw }] } := by
@@ -205,8 +210,8 @@ theorem Valid.collect {s : St} (v : Valid s) : Valid { s with heap := collect s.
 theorem Valid.step {s : St} (v : Valid s) (op : Op) :
     ∃ s' r, s.step op = some (s', r) ∧ Valid s' := by
   cases op with
-  | alloc => exact ⟨_, _, rfl, v.alloc 1 0 (Or.inl (by omega))⟩
-  | allocView => exact ⟨_, _, rfl, v.alloc 0 1 (Or.inr (by omega))⟩
+  | alloc => exact ⟨_, _, rfl, v.alloc 1 0⟩
+  | allocView => exact ⟨_, _, rfl, v.alloc 0 1⟩
   | handle a =>
     simp only [St.step]
     cases ha : s.arg a with
